@@ -296,6 +296,79 @@ def rnd_int_array(rnd, shape):
     return np.array([rnd.randint(-5, 5) for _ in range(n)]).reshape(shape)
 
 
+def _safe(f):
+    try:
+        return f()
+    except Exception as e:  # a library exception is a failing clause, not a crash of the harness
+        return "%s: %s" % (type(e).__name__, str(e)[:100])
+
+
+def _shape_of(x):
+    return x if isinstance(x, str) else tuple(x.array.shape)
+
+
+def _same_tensor(got, ref, tensor_shape):
+    return (not isinstance(got, str)) and got.array.shape == ref.shape and np.array_equal(got.array, ref) and got.tensor_shape == tensor_shape
+
+
+@case("C05", "diagram.free-axes.lattice", [], kind="bounded", functions=["geometer.base.TensorDiagram.calculate"],
+      bound="2- and 3-node diagrams whose nodes carry 0..3 collection (free) axes each, right-aligned sub-shapes of (4, 2, 3) incl. length-1 axes; vector.vector, matrix.vector, "
+            "matrix.matrix.vector and uncontracted products; oracle numpy einsum with ellipsis broadcasting")
+def diagram_free_axes(ctx):
+    """collection axes of the nodes broadcast like numpy (right-aligned) and come first in the result, in broadcast order"""
+    gb, TCE = _b()
+    rnd = random.Random(7)
+    full = (4, 2, 3)
+    variants = [full, (4, 1, 3), (1, 2, 1)]
+
+    def mk(free, tshape, cov):
+        shape = tuple(free) + tuple(tshape)
+        arr = np.array([rnd.randint(-4, 4) for _ in range(int(np.prod(shape)) if shape else 1)]).reshape(shape)
+        return gb.Tensor(arr, covariant=[i for i in cov], tensor_rank=len(tshape))
+
+    for fa in range(4):
+        for fb in range(4):
+            for va in variants:
+                for vb in variants:
+                    sa, sb = va[3 - fa:], vb[3 - fb:]
+                    try:
+                        np.broadcast_shapes(sa, sb)
+                    except ValueError:
+                        continue
+                    w = dict(free_a=sa, free_b=sb)
+                    # covariant vector . contravariant vector
+                    a, b = mk(sa, (3,), [0]), mk(sb, (3,), [])
+                    ref = np.einsum("...i,...i->...", a.array, b.array)
+                    got = _safe(lambda: gb.TensorDiagram((a, b)).calculate())
+                    ctx.ensure("vector.vector", _same_tensor(got, ref, (0, 0)), witness=dict(w, got=_shape_of(got), want=ref.shape))
+                    # matrix (A_i^j) applied to a contravariant vector: edge (A, v) contracts A's covariant index
+                    A = mk(sa, (3, 3), [0])
+                    ref = np.einsum("...ij,...i->...j", A.array, b.array)
+                    got = _safe(lambda: gb.TensorDiagram((A, b)).calculate())
+                    ctx.ensure("matrix.vector", _same_tensor(got, ref, (0, 1)), witness=dict(w, got=_shape_of(got), want=ref.shape))
+                    # uncontracted product of two vectors: covariant first
+                    def prod():
+                        d = gb.TensorDiagram()
+                        d.add_node(b)
+                        d.add_node(a)
+                        return d.calculate()
+
+                    ref = np.einsum("...j,...i->...ij", b.array, a.array)
+                    got = _safe(prod)
+                    ctx.ensure("product-of-unconnected-nodes", _same_tensor(got, ref, (1, 1)) and got._covariant_indices == {got.rank - 2}, witness=dict(w, got=_shape_of(got), want=ref.shape))
+                    for fc in range(4):
+                        sc = full[3 - fc:]
+                        try:
+                            np.broadcast_shapes(sa, sb, sc)
+                        except ValueError:
+                            continue
+                        B, v = mk(sb, (3, 3), [0]), mk(sc, (3,), [])
+                        # (B, v): B_j^k v^j ; (A, B): A_i^j ... edge (A, B) pairs A's covariant index with B's contravariant index
+                        ref = np.einsum("...jk,...j,...ki->...i", B.array, v.array, A.array)
+                        got = _safe(lambda: gb.TensorDiagram((B, v), (A, B)).calculate())
+                        ctx.ensure("matrix.matrix.vector", _same_tensor(got, ref, (0, 1)), witness=dict(w, free_c=sc, got=_shape_of(got), want=ref.shape))
+
+
 # --------------------------------------------------------------------------------------------- wrappers
 
 
@@ -377,3 +450,44 @@ for _n, _p in [(2, 1), (2, 2), (3, 1), (3, 2), (3, 3), (4, 1), (4, 2)]:
     _delta_case(_n, _p, "quick")
 for _n, _p in [(4, 3), (4, 4), (5, 2)]:
     _delta_case(_n, _p, "thorough")
+
+
+@case("C05", "kronecker.sequences", [], mode="field", functions=["geometer.base.KroneckerDelta.__init__", "geometer.base.LeviCivitaTensor.__init__"], oracle=False,
+      assumptions=["class-level caches: every ORDER of constructing delta(n, p) for (n, p) in {1..3} x {1..3} (p > n included: the zero tensor) is replayed in one process "
+                   "(all 2-step orders, 40 random long orders); epsilon(n) in both variances interleaved"])
+def kronecker_sequences(ctx):
+    """the result of a constructor must not depend on which sizes were constructed before (cache keys)"""
+    gb, TCE = _b()
+    sizes = [(n, p) for n in (1, 2, 3) for p in (1, 2, 3)]
+    spec = {}
+    for n, p in sizes:
+        spec[(n, p)] = np.array([_delta_spec(n, p, idx[:p], idx[p:]) for idx in itertools.product(range(n), repeat=2 * p)]).reshape((n,) * (2 * p))
+
+    def check(order):
+        gb.KroneckerDelta._cache.clear()
+        gb.LeviCivitaTensor._cache.clear()
+        for k, (n, p) in enumerate(order):
+            d = gb.KroneckerDelta(n, p)
+            arr = np.asarray(d.array)
+            if arr.shape != spec[(n, p)].shape or not np.array_equal(arr.astype(int), spec[(n, p)]) or d.tensor_shape != (p, p):
+                return order[: k + 1]
+            if k % 2:
+                e = gb.LeviCivitaTensor(n, bool(k % 4 == 1))
+                if np.asarray(e.array).shape != (n,) * n or (n > 1 and int(np.asarray(e.array)[tuple(range(n))]) != 1):
+                    return order[: k + 1] + ("epsilon",)
+        return None
+
+    bad = []
+    for a in sizes:
+        for b in sizes:
+            r = check((a, b, a))
+            if r:
+                bad.append(r)
+    rnd = random.Random(3)
+    for _ in range(40):
+        r = check(tuple(rnd.choice(sizes) for _ in range(8)))
+        if r:
+            bad.append(r)
+    gb.KroneckerDelta._cache.clear()
+    gb.LeviCivitaTensor._cache.clear()
+    ctx.ensure("constructors-independent-of-the-construction-history", not bad, bad=str(bad[:3]))
